@@ -32,6 +32,13 @@ def cfg_today(sizes):
             1024 if fixed('alloc_untrusted_len') else -1,
             1 if fixed('loaded_not_wf') else 0, sizes]
 
+def mline(op, cfg, img, chunk=192):
+    """request line for a model op on an image; long images are split into
+    several string atoms (coq/Base/Prelude.v read_str is quadratic in the
+    length of one atom; coq/Ser/Run.v joins the chunks)"""
+    parts = [img[i:i + chunk] for i in range(0, len(img), chunk)] or [b'']
+    return sx([Sym(op), cfg] + parts)
+
 def regenerate_names(c):
     """re-extract the BuiltInFunction name tables from the tree being checked"""
     p = subprocess.run([sys.executable, os.path.join(ROOT, 'tools', 'gen_builtin_names.py')],
